@@ -246,10 +246,19 @@ class Prov:
                         out.add(("NUM", ch))
                     elif isinstance(it, ast.Call) and dotted(it.func) in ("range", "enumerate") and dotted(it.func) == "range":
                         out.add(("NUM", ch))
+                    elif self._chart_values(f, it):
+                        # documented API contract: the elements of a chart-data `values` sequence are numbers
+                        out.add(("NUM", ch + ("numeric by API contract: element of a chart `values` sequence",)))
                     elif isinstance(it, ast.Call) and dotted(it.func) == "enumerate" and it.args:
                         out |= self.origin(it.args[0], fc, depth + 1, ch)
                     else:
-                        out |= self.origin(it, fc, depth + 1, ch)
+                        comp_ = None
+                        if isinstance(n.target, ast.Tuple):
+                            # `for a, b in <generator of pairs>`: b is the second component of what the generator makes
+                            pos_ = [i_ for i_, x_ in enumerate(n.target.elts) if isinstance(x_, ast.Name) and x_.id == e.id]
+                            if pos_:
+                                comp_ = self._iter_component(it, pos_[0], len(n.target.elts), fc, depth, ch)
+                        out |= comp_ if comp_ is not None else self.origin(it, fc, depth + 1, ch)
             elif isinstance(n, ast.With):
                 for item in n.items:
                     if isinstance(item.optional_vars, ast.Name) and item.optional_vars.id == e.id:
@@ -290,6 +299,64 @@ class Prov:
         if not isinstance(v, Unknown):
             return {("CONST", ch)}
         return {("UNKNOWN", ch)}
+
+    @staticmethod
+    def _chart_values(f, it):
+        from .itersrc import source_of
+
+        inner = it.args[0] if isinstance(it, ast.Call) and dotted(it.func) == "enumerate" and it.args else it
+        try:
+            t = source_of(f.node, inner, None, None)["terminal"] or ""
+        except Exception:  # noqa: BLE001
+            return False
+        return t == "values" or t.endswith(".values")
+
+    def _iter_component(self, it, i, n, fc, depth, ch, hops=0):
+        """Origins of the i-th component of the elements `it` yields, when `it` is (a parameter bound, for the call being evaluated, to)
+        a generator expression / list whose element is an n-tuple display; None when it is not of that shape."""
+        if hops > 3:
+            return None
+        if isinstance(it, (ast.GeneratorExp, ast.ListComp)) and isinstance(it.elt, ast.Tuple) and len(it.elt.elts) == n:
+            return self.origin(it.elt.elts[i], fc, depth + 1, ch + ("[%d] of the generated tuples" % i,))
+        if isinstance(it, (ast.List, ast.Tuple)) and it.elts and all(isinstance(x, ast.Tuple) and len(x.elts) == n for x in it.elts):
+            out = set()
+            for x in it.elts:
+                out |= self.origin(x.elts[i], fc, depth + 1, ch)
+            return out
+        if isinstance(it, ast.Name):
+            bind = getattr(self, "_bind", None)
+            if bind and bind[-1][0] is fc.fn and it.id in bind[-1][1]:
+                arg, afc = bind[-1][1][it.id]
+                top = bind.pop()
+                try:
+                    return self._iter_component(arg, i, n, afc, depth, ch + ("<- argument %s" % it.id,), hops + 1)
+                finally:
+                    bind.append(top)
+            # a parameter of a private helper: what every call site of the helper passes for it (all of them must be of that shape)
+            f = fc.fn
+            if it.id in f.params and not self.public_pred(f) and not any(
+                    isinstance(x, ast.Name) and x.id == it.id and isinstance(x.ctx, ast.Store) for x in ast.walk(f.node)):
+                sites = self.callsites().get(f, [])
+                out, okc = set(), bool(sites)
+                for caller, call, skip in sites:
+                    ps = f.params[1:] if (skip and f.params) else f.params
+                    arg = None
+                    if it.id in ps:
+                        k_ = ps.index(it.id)
+                        if k_ < len(call.args) and not any(isinstance(x, ast.Starred) for x in call.args[:k_ + 1]):
+                            arg = call.args[k_]
+                    for kw in call.keywords:
+                        if kw.arg == it.id:
+                            arg = kw.value
+                    r_ = self._iter_component(arg, i, n, FCtx(caller), depth, ch + ("<- %s:%d" % (caller.qualname, call.lineno),), hops + 1) \
+                        if arg is not None else None
+                    if r_ is None:
+                        okc = False
+                        break
+                    out |= r_
+                if okc:
+                    return out
+        return None
 
     def _tuple_component(self, value, i, n, fc, depth, ch):
         """Origins of the i-th component of a call whose callees all return n-tuples literally."""
